@@ -745,7 +745,11 @@ mod proofs {
     #[kani::proof]
     #[kani::unwind(36)]
     #[kani::stub(curve25519_dalek::edwards::CompressedEdwardsY::decompress, stub_ed_decompress)]
+    #[kani::stub(curve25519_dalek::edwards::EdwardsPoint::compress, stub_ed_compress)]
     fn verifying_key_ser() {
+        // a serialiser that re-encodes the point instead of emitting the stored bytes gets an arbitrary encoding from the stub
+        let out: [u8; 32] = kani::any();
+        unsafe { COMP_OUT = out };
         let b: [u8; 32] = kani::any();
         let vk = match VerifyingKey::from_bytes(&b) {
             Ok(vk) => vk,
@@ -755,6 +759,7 @@ mod proofs {
         assert!(vk.serialize(&mut rec).is_ok());
         assert!(rec.is_bytes(32));
         assert!(eq32(&b, &rec.buf[..32]));
+        assert!(unsafe { COMP_CALLS } == 0);
     }
 
     // ====================================================================================================
